@@ -40,6 +40,8 @@ TEMPLATES = {
     'del_global': '{0} = 1\ndef f():\n    global {1}\n    print({2})\n    del {1}\n',
     'import_dotted': 'def f():\n    import {0}.{1}.{2}\n    import {1}.{0}.x as {2}\n    from {0}.{1} import {2} as {3}\n    return {0}, {1}, {2}\n',
     'import_dotted_module': 'import {0}.{1}.{2}.y\n{3} = {0}\n',
+    'lambda_walrus_in_genexp': 'def f({0}):\n    return list((lambda: ({1} := {2})) for {3} in {0})\n',
+    'lambda_walrus_in_listcomp_inlined': 'def f({0}):\n    return [(lambda: ({1} := {2})) for {3} in {0}]\n',
     'imports': 'def f():\n    import {0}\n    from m import {1} as {2}\n    return {0}, {2}, {1}\n',
     'except_as': 'def f({0}):\n    try:\n        pass\n    except E as {1}:\n        {2} = {1}\n    return {2}\n',
     'match_capture': 'def f({0}):\n    match {0}:\n        case [{1}, *{2}]:\n            return {1}, {2}\n        case {{"k": {1}, **{2}}}:\n            pass\n        case K() as {3}:\n            return {3}\n',
